@@ -3,7 +3,7 @@
 // C07 — persistence never stalls: every upload and block release gets committed.
 //
 // Real PersistentBlockList + PeriodicSyncer + directory-backed state store inside the assembled
-// local store, virtual clock (minimum epoch interval 10 s, error retry 3 s), both syncer loops as
+// local store, virtual clock (minimum epoch interval 10 s, error retry interval as wired: 10 s in new_blob_access.go), both syncer loops as
 // daemon threads, uploaders (one upload sized to force PopFront), optional shutdown thread.
 // Choice points in addition to the schedule: data sync fails, state-file operations fail, a timer
 // fires while other threads are still runnable.
@@ -36,10 +36,7 @@ import (
 	"verifh/mc"
 )
 
-const (
-	minEpoch = 10 * time.Second
-	retry    = 3 * time.Second
-)
+const minEpoch = 10 * time.Second
 
 func failf(sig, format string, a ...any) { vsched.Fail(sig, format, a...) }
 
@@ -60,16 +57,16 @@ var contents = map[string]string{
 func body(sc scenario) func() {
 	return func() {
 		g := lstore.Geometry{SectorSize: 4, SectorsPerBlock: 2, Old: 1, Current: 1, New: 1, Spare: sc.spare, Persistent: true,
-			IndexSlots: 127, GetAttempts: 16, PutAttempts: 64, MinEpochInterval: minEpoch, ErrorRetry: retry, IndexOnDevice: true}
+			IndexSlots: 127, GetAttempts: 16, PutAttempts: 64, MinEpochInterval: minEpoch, ErrorRetry: 3 * time.Second, IndexOnDevice: true}
 		med := lstore.NewMedia(g)
-		s := lstore.Open(g, med)
-		med.Data.SyncFaults = sc.syncFaults
-		med.Dir.Faults = sc.dirFaults
 		ctx, cancel := context.WithCancel(context.Background())
 		defer cancel()
 		putLoopExited := false
 		var putLoopExitTime time.Time
-		s.StartSyncers(ctx, func() { putLoopExited = true; putLoopExitTime = vsched.Now() })
+		s := lstore.OpenWith(g, med, lstore.OpenOptions{Ctx: ctx, OnPutLoopExit: func() { putLoopExited = true; putLoopExitTime = vsched.Now() }})
+		retry := s.Geo.ErrorRetry
+		med.Data.SyncFaults = sc.syncFaults
+		med.Dir.Faults = sc.dirFaults
 		var acks []lstore.Ack
 		var wg vsync.WaitGroup
 		shutdownRequested := false
